@@ -2,9 +2,9 @@ package main
 
 import (
 	"go/ast"
-	"sort"
 	"go/token"
 	"go/types"
+	"sort"
 	"strings"
 
 	"golang.org/x/tools/go/packages"
